@@ -1,5 +1,5 @@
 """C15 — MPSC / SPSC / relaxed-MPSC queues: each item popped once, per-producer FIFO (structural part)."""
-from core import strip, is_field, order_ge, key_str, key_mentions
+from core import deatomic, is_atomic_load, strip, is_field, order_ge, key_str, key_mentions
 from facts import AnalysisBroken
 from rules import (field_load, check_init, nodeset, ev, Unevaluable, atom_from, reach, ret_const, is_var_load, is_full_fence, is_compiler_fence, is_param_load)
 
@@ -50,8 +50,8 @@ def check_push(ctx, P, name, qrec, nrec, kind):
         if not key_mentions(bk, lambda x: x[0] == "atomic" and x[1] == "exchange"):
             bad = bad or "the node linked to (`%s`) is not the previous tail returned by the exchange" % key_str(base)
     else:
-        lt = [l for l in f.loads_of(qrec, "tail") if l.node.k == "AtomicExpr"]
-        if not lt or not key_mentions(bk, lambda x: x[0] == "atomic" and x[1] == "load"):
+        lt = [l for l in f.loads_of(qrec, "tail") if is_atomic_load(l.node)]
+        if not lt or not key_mentions(deatomic(bk), lambda x: x[0] == "f" and x[1] == qrec and x[2] == "tail"):
             bad = bad or "the node linked to is not the previous tail"
         elif f.dominated_by(sw.node, nodeset([l.node for l in lt])) is not None:
             bad = bad or "the previous tail is read after the new tail was stored"
@@ -103,7 +103,7 @@ def check_pop(ctx, P, name, qrec, nrec, kind):
         bad = bad or "the stub's data is set to `%s`" % ds[0].value.text
     if kind == "spsc":
         for l in f.loads_of(qrec, "head") + nx:
-            if l.node.k == "AtomicExpr" and not order_ge(l.order or "relaxed", "acquire"):
+            if is_atomic_load(l.node) and not order_ge(l.order or "relaxed", "acquire"):
                 bad = bad or "load `%s` is %s" % (l.node.text, l.order)
         if not (hs[0].kind == "atomic" and order_ge(hs[0].order or "relaxed", "release")):
             bad = bad or "head store is not release"
@@ -206,7 +206,8 @@ def run(ctx):
         o = ctx.ob("init", f, "init allocates a zeroed stub node and makes it both head and tail", "head != tail or a stub with a stale next: the first pop walks into garbage")
         ts, hs = f.stores_to(qrec, "tail"), f.stores_to(qrec, "head")
         bad = None
-        if len(ts) != 1 or len(hs) != 1 or not f.calls("calloc"):
+        from rules import zeroed_alloc_calls
+        if len(ts) != 1 or len(hs) != 1 or not zeroed_alloc_calls(f):
             bad = "stub not calloc()ed / head or tail not set"
         else:
             hk = f.key(hs[0].value, True)
